@@ -834,6 +834,9 @@ func (ex *Executor) exec(st *State, f *Frame, instr ssa.Instruction) ctl {
 		if !ok {
 			ex.abort("MakeChan with symbolic size")
 		}
+		if n < 0 {
+			ex.goPanic(st, "makechan: size out of range")
+		}
 		o := ex.newObj(in.Type(), "chan")
 		st.Heap[o] = &ChanData{Cap: int(n)}
 		ex.setReg(f, in, ChanV{o})
